@@ -453,6 +453,7 @@ func (fx *FuncExec) loopHead(li *loopInfo, pre *State) *State {
 		}
 	}
 	li.old = st.Clone()
+	st.labels["loop"+li.name] = li.old
 	return st
 }
 
@@ -484,6 +485,7 @@ func (fx *FuncExec) backEdge(li *loopInfo, st *State) {
 	}
 	envStep := fx.specEnv(st, li.old)
 	envStep.loop = li
+	envStep.idxState = st
 	envStep.oldCells = li.old
 	for _, sc := range li.spec.Steps {
 		fx.oblige("step", st, fx.evalBool(envStep, sc), fmt.Sprintf("loop %s step contract: %s", li.name, sc.Text), pos)
